@@ -11,6 +11,7 @@ import (
 	"github.com/hashicorp/nodeenrollment/rotation"
 	"github.com/hashicorp/nodeenrollment/types"
 	"google.golang.org/protobuf/proto"
+	"google.golang.org/protobuf/types/known/timestamppb"
 
 	"verifsim/kernel"
 )
@@ -146,6 +147,33 @@ func propC03(r *kernel.Run) {
 				b, _ := proto.Marshal(info)
 				req.Bundle = b
 				req.BundleSignature = tp.Bytes(64)
+			}
+			if fieldsOK && tp.Draw(12) == 0 {
+				// timestamps a hand-written client can put into the bundle: absent, or with a nanosecond part outside
+				// [0, 1e9). What counts is the instant the library's own conversion (AsTime) yields: the model window is
+				// rebuilt from it, so an absent not-after (= 1970) must be refused like any other window in the past.
+				which := tp.Draw(3)
+				mal := func(t time.Time) *timestamppb.Timestamp {
+					switch tp.Draw(3) {
+					case 0:
+						return nil
+					case 1:
+						return &timestamppb.Timestamp{Seconds: t.Unix(), Nanos: -1}
+					}
+					return &timestamppb.Timestamp{Seconds: t.Unix(), Nanos: 1_000_000_000 + int32(tp.Draw(1000))}
+				}
+				if which != 1 {
+					info.NotBefore = mal(nb)
+				}
+				if which != 0 {
+					info.NotAfter = mal(na)
+				}
+				nb, na = info.NotBefore.AsTime(), info.NotAfter.AsTime()
+				b, _ := proto.Marshal(info)
+				req.Bundle = b
+				req.BundleSignature = signWith(id, b)
+				fieldCase = "timestamps-absent-or-denormal"
+				r.Count("cfg.timestamps_absent_or_denormal", 1)
 			}
 			if fieldCase == "bad-key-type" {
 				if tp.Draw(2) == 0 {
